@@ -66,7 +66,7 @@ def run(tier):
     # 2. the implementation, sampled over OS schedules
     plan = [("threads", 60, 5), ("procs", 40, 5), ("mixed", 100, 6)]
     if thorough:
-        plan = [("threads", 1500, 6), ("procs", 1000, 6), ("mixed", 2500, 7)]
+        plan = [("threads", 800, 6), ("procs", 600, 6), ("mixed", 1600, 7)]
     total = {}
     traces = []
     for k, (mode, runs, iters) in enumerate(plan):
@@ -107,12 +107,24 @@ def run(tier):
     mode, tr = traces[0]
     evs = [json.loads(x) for x in open(tr)]
     tc = trace_consts(evs, handles=("h1",))
-    for what in ("lost", "duplicated"):
+    for what in ("lost", "duplicated", "partially-visible"):
         out = []
         done = False
         for e in evs:
             e = json.loads(json.dumps(e))
-            if e["a"] == "Audit" and not done:
+            if e["a"] == "Audit" and not done and what == "partially-visible":
+                # a reader saw a batch without its last operation
+                for sn in e["snaps"]:
+                    idx = [i for i, o in enumerate(sn["ops"]) if o["k"] == "U" and o["p"] == "tag"]
+                    if idx:
+                        u = sn["ops"][idx[-1]]["u"]
+                        del sn["ops"][idx[-1]]
+                        for t in sn["tasks"]:
+                            if t[0] == u:
+                                t[1] = [pv for pv in t[1] if pv[0] != "tag"]
+                        done = True
+                        break
+            elif e["a"] == "Audit" and not done:
                 ops = e["db"]["ops"]
                 idx = [i for i, o in enumerate(ops) if o["k"] == "U" and o["p"] == "tag"]
                 if idx:
@@ -123,10 +135,16 @@ def run(tier):
                     e["final"]["ops"] = list(ops)
                     done = True
             out.append(e)
+            if done:
+                break
+        out = out[-2:]
         p = os.path.join(wd, f"corrupted-{what}.trace.ndjson")
         with open(p, "w") as f:
-            for e in out[:40]:
+            for e in out:
                 f.write(json.dumps(e) + "\n")
+        if not done:
+            v.tool_errors.append(f"self-test {what}: nothing to corrupt")
+            continue
         nf = validate(v, wd, f"selftest-{what}-operation", p, tc, expect_reject=True, chunk=400)
         v.extra[f"selftest_{what}_operation_rejected"] = nf > 0
         if nf == 0:
